@@ -2114,7 +2114,9 @@ theorem winv_step {w : World} (h : WInv w) (op : Op) : WInv (step w op).1 := by
       · exact inv_appendGuideDicts inv_empty _
     split
     · exact h1
-    · exact winv_on h1 _ _ (fun g hg => inv_insertAnchor hg _ _)
+    · split
+      · exact h1
+      · exact winv_on h1 _ _ (fun g hg => inv_insertAnchor hg _ _)
 
 theorem winv_run {w : World} (h : WInv w) (ops : List Op) : WInv (run w ops) := by
   induction ops generalizing w with
